@@ -3,6 +3,7 @@ mod common;
 mod corpus;
 mod drive;
 mod gen;
+mod irgen;
 mod json;
 mod judge;
 mod model;
